@@ -1,5 +1,5 @@
 """C07 - acceleration shortcuts never change an answer."""
-import C06
+import C06, C07b
 from C01 import TUS as T1
 TUS_BOX = ['c07.cc'] + T1[1:]
 def ob(id, entry, mode, cases, expect, bounds, tus=TUS_BOX, **kw):
@@ -10,10 +10,4 @@ OBLIGATIONS = [
     ob('C07.boxfp', 'h_c07_box_fp', 'fp', [()], ['a point within the closed box is inside (bit precise, default tolerance)', 'end'], 'bit-precise doubles, default tolerance (epsilon), finite corners', time_cap=250),
     ob('C07.alias', 'h_c07_alias', 'fpu', [()], ['spherical box test is the disjunction over the two longitude aliases', 'end'], 'all doubles (products uninterpreted)'),
     ob('C07.extend', 'h_c07_extend', 'real', [()], ['extend moves both corners outwards by the amount', 'end'], 'all finite corners and amounts', native=True),
-    ob('C07.bounds.slab', 'h_c07_bounds_slab', 'real', [(2, 1), (2, 2), (3, 2)], ['one segment table per coordinate', 'the stored maximum thickness dominates both ends of every segment', 'total lengths are the sums of the segment lengths and the stored maximum dominates them',
-       'Cartesian: the bounding box contains every coordinate extended by maximum thickness + maximum total length', 'end'], '2-3 coordinates x 1-2 default segments, no section overrides; Cartesian', tus=['c07_parse.cc'] + C06.TUS[1:], native=False,
-       stubs=['Parameters API stub (coordinates, dip point, default segment list arbitrary; no models, no sections)'], assumes=['non-negative lengths and thicknesses (schema)']),
-    ob('C07.bounds.fault', 'h_c07_bounds_fault', 'real', [(2, 1), (2, 2), (3, 2)], ['one segment table per coordinate', 'the stored maximum thickness dominates both ends of every segment', 'total lengths are the sums of the segment lengths and the stored maximum dominates them',
-       'Cartesian: the bounding box contains every coordinate extended by maximum thickness + maximum total length', 'end'], 'as C07.bounds.slab', tus=['c07_parse.cc'] + C06.TUS[1:], native=False,
-       stubs=['Parameters API stub (coordinates, dip point, default segment list arbitrary; no models, no sections)'], assumes=['non-negative lengths and thicknesses (schema)']),
-] + C06.CUT_OBS
+] + C07b.bounds_obs('C07.bounds', C06.TUS[1:]) + C06.CUT_OBS + [dict(o, id=o['id'].replace('C12.sections', 'C07.bounds.sections')) for o in __import__('C12').OBLIGATIONS if o['id'].startswith('C12.sections')]
